@@ -6,6 +6,8 @@ import (
 	"go/constant"
 	"go/token"
 	"go/types"
+	"os"
+	"path/filepath"
 	"strings"
 )
 
@@ -242,6 +244,7 @@ type jsPrintHypo struct {
 	cancel  bool
 	modeFld *types.Var
 	cancFld *types.Var
+	name    string // when not empty: the Name of every directive node of the print
 }
 
 func (h jsPrintHypo) expr(ev *evaluator, e ast.Expr, info *types.Info) (aval, bool) {
@@ -253,11 +256,21 @@ func (h jsPrintHypo) expr(ev *evaluator, e ast.Expr, info *types.Info) (aval, bo
 			if sel.Obj() == h.cancFld {
 				return boolVal(h.cancel), true
 			}
+			if h.name != "" && sel.Obj().Name() == "Name" {
+				if _, tn, ok := relPkgOfType(sel.Recv()); ok && tn == "PrintDirectiveNode" {
+					return constVal(constant.MakeString(h.name)), true
+				}
+			}
 		}
 	}
 	return unknown, false
 }
 func (h jsPrintHypo) prim(ev *evaluator, fn *types.Func, call *ast.CallExpr, st state) (aval, bool) {
+	// the printed expression is generated by the tree walker: not followed (it may hold prints of its own,
+	// whose escaping is not this print's)
+	if fn != nil && fn.Name() == "walk" && fn.Type().(*types.Signature).Recv() != nil {
+		return unknown, true
+	}
 	return unknown, false
 }
 func (h jsPrintHypo) isRead(fn *types.Func) bool { return false }
@@ -304,21 +317,41 @@ func ruleR04g(c *Ctx) {
 			continue
 		}
 		for _, cancel := range []bool{false, true} {
-			ev := newEvaluator(c, jsPrintHypo{k.Val(), cancel, modeFld, cancFld})
+			// the directives of the print: an ordinary one (not HTML-producing, not a no-op marker) with this flag
+			ev := newEvaluator(c, jsPrintHypo{k.Val(), cancel, modeFld, cancFld, plainDirective(c, cancel)})
 			ev.watchLit = "escapeHtml"
+			ev.stmtHook = dirAppendHook(c, info)
 			comps := ev.execBlock(fd.Body.List, state{env: env{}}, info)
 			paths, wrapped := 0, 0
+			withDir, withDirWrapped := 0, 0
 			for _, cp := range comps {
 				if cp.kind == cNoReturn || cp.kind == cSpin {
 					continue
 				}
 				paths++
+				w, d := false, false
 				for _, e := range cp.st.tr.list() {
 					if strings.HasPrefix(e.name, "lit:") {
-						wrapped++
-						break
+						w = true
+					}
+					if strings.HasPrefix(e.name, "append-dir") || e.name == "append-esc-dir" {
+						d = true
 					}
 				}
+				if w {
+					wrapped++
+				}
+				if d {
+					withDir++
+					if w {
+						withDirWrapped++
+					}
+				}
+			}
+			if cancel && withDir > 0 {
+				key := fmt.Sprintf("soyjs.state.visitPrint mode=%s cancelling-directive", mn)
+				c.check(withDirWrapped == 0, "R04g", key, fd.Pos(), fmt.Sprintf("no path that puts a cancelling directive on the list (%d) also wraps the value in escapeHtml", withDir),
+					"the generator wraps the value in escapeHtml although a directive of the print cancels autoescaping: the Go renderer does not escape it")
 			}
 			key := fmt.Sprintf("soyjs.state.visitPrint mode=%s cancel=%v", mn, cancel)
 			must := !strings.HasSuffix(mn, "Off") && !cancel
@@ -392,4 +425,250 @@ func jsFuncsLit(c *Ctx) *ast.CompositeLit {
 	}
 	c.fatalf("anchor: soyjs's function table ([]Func or map[string]Func literal) not found")
 	return nil
+}
+
+// jsDirectiveFuncs: directive name -> name of the JavaScript function in soyjs.PrintDirectives.
+func jsDirectiveFuncs(c *Ctx) map[string]string {
+	p := c.pkg("soyjs")
+	init := c.mustVarInit("soyjs", "PrintDirectives")
+	if p == nil || init == nil {
+		return nil
+	}
+	cl, ok := init.(*ast.CompositeLit)
+	if !ok {
+		return nil
+	}
+	out := map[string]string{}
+	for _, el := range cl.Elts {
+		kv, ok := el.(*ast.KeyValueExpr)
+		if !ok {
+			continue
+		}
+		ktv := p.TypesInfo.Types[kv.Key]
+		row, ok := kv.Value.(*ast.CompositeLit)
+		if ktv.Value == nil || !ok {
+			continue
+		}
+		for _, f := range row.Elts {
+			val := f
+			if kv2, ok := f.(*ast.KeyValueExpr); ok {
+				val = kv2.Value
+			}
+			if tv := p.TypesInfo.Types[val]; tv.Value != nil && tv.Value.Kind() == constant.String {
+				out[constant.StringVal(ktv.Value)] = constant.StringVal(tv.Value)
+				break
+			}
+		}
+	}
+	return out
+}
+
+// plainDirective: a directive of the generator's table with the given cancel flag that has a JavaScript
+// function of its own and is not HTML-producing ("" when there is none).
+func plainDirective(c *Ctx, cancel bool) string {
+	fns := jsDirectiveFuncs(c)
+	for _, e := range directiveTable(c, "soyjs") {
+		if e.cancel == cancel && fns[e.name] != "" && !strings.HasPrefix(cancelClass[e.name], "html:") {
+			return e.name
+		}
+	}
+	return ""
+}
+
+// R04r: a directive that adds markup to the text (class "html" of R03b: the Go Apply escapes the value it is
+// given, whatever the autoescape mode) works on the escaped value in the generated JavaScript too. The
+// runtime functions behind changeNewlineToBr and insertWordBreaks do not escape, so the generator has to
+// put escapeHtml before them: visitPrint is evaluated (K2) with autoescaping off and every directive of
+// the print being that directive; on every path each append of the directive node to the call list is
+// preceded, in that iteration, by the append of an escapeHtml node (or carries it as an earlier argument).
+func ruleR04r(c *Ctx) {
+	p := c.pkg("soyjs")
+	fd := c.mustFunc("soyjs", "state.visitPrint")
+	if p == nil || fd == nil {
+		return
+	}
+	info := p.TypesInfo
+	var modeFld, cancFld *types.Var
+	if stObj := p.Types.Scope().Lookup("state"); stObj != nil {
+		st := stObj.Type().Underlying().(*types.Struct)
+		for i := 0; i < st.NumFields(); i++ {
+			if _, tn, ok := relPkgOfType(st.Field(i).Type()); ok && tn == "AutoescapeType" {
+				modeFld = st.Field(i)
+			}
+		}
+	}
+	if pdObj := p.Types.Scope().Lookup("PrintDirective"); pdObj != nil {
+		pd := pdObj.Type().Underlying().(*types.Struct)
+		for i := 0; i < pd.NumFields(); i++ {
+			if b, ok := pd.Field(i).Type().(*types.Basic); ok && b.Kind() == types.Bool {
+				cancFld = pd.Field(i)
+			}
+		}
+	}
+	var off constant.Value
+	for _, n := range c.pkg("ast").Types.Scope().Names() {
+		if k, ok := c.pkg("ast").Types.Scope().Lookup(n).(*types.Const); ok && strings.HasSuffix(n, "Off") {
+			if _, tn, ok := relPkgOfType(k.Type()); ok && tn == "AutoescapeType" {
+				off = k.Val()
+			}
+		}
+	}
+	if modeFld == nil || cancFld == nil || off == nil {
+		c.fatalf("anchor: soyjs state autoescape field / PrintDirective cancel flag / ast.AutoescapeOff not found")
+		return
+	}
+	hook := dirAppendHook(c, info)
+	fns := jsDirectiveFuncs(c)
+	n := 0
+	for _, e := range directiveTable(c, "soyjs") {
+		if !strings.HasPrefix(cancelClass[e.name], "html:") {
+			continue
+		}
+		key := "soyjs.state.visitPrint escapes-before " + e.name
+		if fns[e.name] != "" && fns[e.name] == fns["escapeHtml"] {
+			n++
+			c.okTrivial("R04r", key, e.pos, "the directive's JavaScript function is the escaper itself")
+			continue
+		}
+		// the runtime function, as shipped in the tree: does it escape by itself?
+		if body, ok := jsRuntimeFunc(c, fns[e.name]); !ok {
+			c.unk("R04r", key, e.pos, "the runtime function "+fns[e.name]+" is not defined in soyjs/lib/soyutils.js")
+			n++
+			continue
+		} else if strings.Contains(body, "escapeHtml") {
+			n++
+			c.okTrivial("R04r", key, e.pos, "the runtime function "+fns[e.name]+" escapes its argument itself")
+			continue
+		}
+		ev := newEvaluator(c, jsPrintHypo{off, e.cancel, modeFld, cancFld, e.name})
+		ev.watchLit = "escapeHtml"
+		ev.stmtHook = hook
+		comps := ev.execBlock(fd.Body.List, state{env: env{}}, info)
+		good, bad := 0, 0
+		var badPos token.Pos
+		for _, cp := range comps {
+			if cp.kind == cNoReturn || cp.kind == cSpin {
+				continue
+			}
+			pending := false
+			for _, x := range cp.st.tr.list() {
+				switch x.name {
+				case "lit:escapeHtml":
+					pending = true
+				case "append-esc-dir":
+					good++
+					pending = false
+				case "append-dir-esc":
+					bad++
+					badPos = x.pos
+				case "append-dir":
+					if pending {
+						good++
+					} else {
+						bad++
+						badPos = x.pos
+					}
+					pending = false
+				}
+			}
+		}
+		n++
+		switch {
+		case good+bad == 0:
+			c.unk("R04r", key, fd.Pos(), "no evaluated path puts the directive on the call list")
+		case bad > 0:
+			c.bad("R04r", key, badPos, "the generated call "+fns[e.name]+"(value) is given the raw value: the runtime function does not escape, while the Go directive escapes the value it is given, so {$x|"+e.name+"} prints markup characters of $x raw in JavaScript and as references in Go")
+		default:
+			c.ok("R04r", key, fd.Pos(), "on every path an escapeHtml call is put on the list immediately before the directive's own: it works on the escaped value, as the Go directive does")
+		}
+	}
+	c.floor("R04r", "HTML-producing directives of the generator's table", 3, n)
+}
+
+// jsRuntimeFunc: the text of `name = function(...) { ... };` in the runtime library of the tree.
+func jsRuntimeFunc(c *Ctx, name string) (string, bool) {
+	src, err := os.ReadFile(filepath.Join(c.Repo, "soyjs", "lib", "soyutils.js"))
+	if err != nil || name == "" {
+		return "", false
+	}
+	txt := string(src)
+	i := strings.Index(txt, "\n"+name+" = function(")
+	if i < 0 {
+		return "", false
+	}
+	j := strings.Index(txt[i:], "\n};")
+	if j < 0 {
+		return "", false
+	}
+	return txt[i : i+j], true
+}
+
+// dirAppendHook: a statement hook for evaluating visitPrint that records, for every append putting the
+// range variable over a print's directive nodes on a list, the event append-dir (or append-esc-dir /
+// append-dir-esc when the same call also appends an escapeHtml node before / after it).
+func dirAppendHook(c *Ctx, info *types.Info) func(s ast.Stmt, st state, info *types.Info) *event {
+	// range variables over a print's directive nodes
+	dirVars := map[types.Object]bool{}
+	for _, hd := range c.allFuncDecls("soyjs") {
+		ast.Inspect(hd.Body, func(x ast.Node) bool {
+			if rs, ok := x.(*ast.RangeStmt); ok && rs.Value != nil {
+				if id, ok := rs.Value.(*ast.Ident); ok && info.Defs[id] != nil {
+					if _, tn, ok := relPkgOfType(info.Defs[id].Type()); ok && tn == "PrintDirectiveNode" {
+						dirVars[info.Defs[id]] = true
+					}
+				}
+			}
+			return true
+		})
+	}
+	hasEscLit := func(e ast.Expr) bool {
+		found := false
+		ast.Inspect(e, func(y ast.Node) bool {
+			if ex, ok := y.(ast.Expr); ok {
+				if tv, ok := info.Types[ex]; ok && tv.Value != nil && tv.Value.Kind() == constant.String && constant.StringVal(tv.Value) == "escapeHtml" {
+					found = true
+				}
+			}
+			return true
+		})
+		return found
+	}
+	hook := func(s ast.Stmt, st state, info *types.Info) *event {
+		var out *event
+		switch s.(type) {
+		case *ast.AssignStmt, *ast.ExprStmt:
+		default:
+			return nil
+		}
+		ast.Inspect(s, func(x ast.Node) bool {
+			call, ok := x.(*ast.CallExpr)
+			if !ok {
+				return true
+			}
+			id, ok := call.Fun.(*ast.Ident)
+			if !ok || id.Name != "append" || len(call.Args) < 2 {
+				return true
+			}
+			dirAt, escAt := -1, -1
+			for i, a := range call.Args[1:] {
+				if aid, ok := ast.Unparen(a).(*ast.Ident); ok && dirVars[info.Uses[aid]] {
+					dirAt = i
+				} else if hasEscLit(a) && escAt < 0 {
+					escAt = i
+				}
+			}
+			switch {
+			case dirAt < 0:
+			case escAt >= 0 && escAt < dirAt:
+				out = &event{name: "append-esc-dir", pos: call.Pos()}
+			case escAt >= 0:
+				out = &event{name: "append-dir-esc", pos: call.Pos()}
+			default:
+				out = &event{name: "append-dir", pos: call.Pos()}
+			}
+			return true
+		})
+		return out
+	}
+	return hook
 }
